@@ -22,7 +22,7 @@ RULE = ("one case per (generated table, option combination); non-trivial = table
 ANCHORS = ["decaylanguage.dec.dec:DecFileParser.print_decay_modes", "decaylanguage.dec.dec:DecFileParser._decay_mode_details"]
 WORKERS = {"quick": 4, "thorough": 16}
 REQUIRED = {"ascending": 50, "ascending+scale": 20, "descending+scale": 20, "normalize": 50, "ties": 30, "lines>=5": 50, "lines>=8": 20, "refused:normalize+scale": 10,
-            "refused:scale-out-of-range": 20, "refused:scale-nan": 5, "all-values-below-1e-9": 10, "reparsed-off-and-on-between-prints": 20, "first-parsed-without-conjugates-then-with": 10, "pdg-name-mother": 10, "print_model=False": 50, "photos-keyword-hidden": 30, "photos-keyword-shown": 30,
+            "refused:scale-out-of-range": 20, "refused:scale-nan": 5, "all-values-below-1e-9": 10, "near-tie-beyond-7-digits": 20, "reparsed-off-and-on-between-prints": 20, "first-parsed-without-conjugates-then-with": 10, "pdg-name-mother": 10, "print_model=False": 50, "photos-keyword-hidden": 30, "photos-keyword-shown": 30,
             "option-combinations-all": 1, "conjugated-table-printed": 20, "defined-parameter-in-row": 20, "same-table-other-define-value": 10, "span>=1e6": 20, "stored-values-unchanged": 200}
 EXHAUSTIVE_NOTE = "all 2x2x2x(normalize|8 scales) option combinations are used on every 8th table (quick) / every table (thorough)"
 ASSUMPTIONS = ["values are positive (1e-12..1); 7-significant-digit rounding allows a relative error of 6e-7 per value",
@@ -44,8 +44,12 @@ def gen_table(ctx):
     for i in range(n):
         if i and r.random() < 0.3:
             lit = lits[r.randrange(i)]       # exact tie: the same literal
+        elif i and r.random() < 0.15:
+            # a near-tie: two different values that print alike to 7 significant digits (in either file order)
+            lit = repr(float(lits[r.randrange(i)]) * (1 + r.choice([3e-8, -3e-8, 1e-9])))
+            ctx.hit("near-tie-beyond-7-digits")
         else:
-            lit = r.choice([repr(base[i]), "%.8g" % base[i], "%.8e" % base[i]])
+            lit = r.choice([repr(base[i]), "%.8g" % base[i], "%.8e" % base[i], "%.8E" % base[i], ("%.3E" % base[i]).replace("E-0", "E-")])
         lits.append(lit)
         fs = [g.name() for _ in range(r.randint(0, 4))]
         mod = r.choice([("PHSP", []), ("VSS", []), ("HELAMP", ["1.0", "0.5", "x"]), ("SVS", []), ("VSS_BMIX", ["0.507e12"]), ("BTOXSGAMMA", ["2"])])
